@@ -46,6 +46,23 @@ Theorem c14_fatal_invalidates : forall cs st k rc c' st' ops cs1 st1 c,
 Proof. exact fatal_invalidates. Qed.
 Print Assumptions c14_fatal_invalidates.
 
+(* the same for EVERY invalidating event and for SHARED entries (reference count > 1): connection k holds a
+   reference on an entry that any number of other connections share and keep open; the server writes a fatal
+   alert on k (OAlert), or SSL_FLAGS_ERROR - fatal alert received, local error - is set when matrixUpdateSession
+   runs for k directly (OUpd) or from matrixSslDeleteSession (ODel).  Then over ANY later interleaving of
+   operations of any connections, the sharers included, nobody presenting that identifier is ever resumed
+   (unless the server issues the identical identifier again).  Induction over the op list: run_abs_mono. *)
+Theorem c14_invalidation_shared : forall o k cs st rc cs' st' ops cs1 st1 c,
+  Inv cs st -> (k < length cs)%nat ->
+  holds_entry (getc cs k) -> invalidating o k (getc cs k) -> step o cs st = (rc, cs', st') ->
+  let id0 := e_id (get st (Z.to_nat (c_ref (getc cs k) - 1))) in
+  run ops cs' st' = (cs1, st1) ->
+  ~ issued_during ops cs' st' id0 ->
+  wf_conn c -> c_server c = true -> presented c = id0 ->
+  forall rc1 c1' st1', resume c st1 = (rc1, c1', st1') -> rc1 < 0 /\ c1' = c /\ st1' = st1.
+Proof. exact invalidation_shared. Qed.
+Print Assumptions c14_invalidation_shared.
+
 (* bounded cache: a registration replaces at most one entry, one that is not in use and that no connection holds *)
 Theorem c14_eviction_only_unused : forall cs st k rc cs' st', Inv cs st ->
   step (OReg k) cs st = (rc, cs', st') ->
@@ -163,6 +180,28 @@ Theorem c14_rotation : forall dec mac avail,
 Proof. exact rotation_both. Qed.
 Print Assumptions c14_rotation.
 
-(* NOT covered: TLS 1.3 PSK tickets (tls13Resume.c) are not modelled (no theorem claimed; only the live
-   check exercises a TLS 1.3 hello carrying a foreign session id).  The match of the ticket's EMS flag with the
-   new handshake happens after extension parsing, outside matrixUnlockSessionTicket: observed by the live check only. *)
+(* ---- TLS 1.3 tickets: handling of the sealed session parameters (version, suite, lifetime, issue time) by
+   tls13ValidateSessionParams; AES-GCM sealing, PSK derivation and binder check are NOT modelled *)
+Theorem c14_tls13_validate_partial : forall c suite p st,
+  c_server c = true -> 0 <= p_life p < 2147483 ->
+  (fst (tls13_validate c suite p st) = k_PS_SUCCESS <->
+   p_maj p = c_maj c /\ p_min p = c_min c /\ p_cipher p = suite /\
+   0 <= s_now st - p_stamp p /\ (s_now st - p_stamp p) / 1000 <= p_life p).
+Proof. exact tls13_validate_spec. Qed.
+Print Assumptions c14_tls13_validate_partial.
+
+(* a ticket whose parameters were sealed as tls13WriteNewSessionTicket does (lifetime TLS_1_3_TICKET_LIFETIME, issue
+   time = now) is honoured for exactly that many seconds and only for the same version and suite.  The sealing side
+   (tls13_issue) is tied to the code by the live expiry scenarios only (359 s / 361 s / clock wrap). *)
+Theorem c14_tls13_ticket_lifetime_partial : forall c0 c1 suite0 suite1 st0 st1,
+  c_server c1 = true ->
+  (fst (tls13_validate c1 suite1 (tls13_issue c0 suite0 st0) st1) = k_PS_SUCCESS <->
+   c_maj c0 = c_maj c1 /\ c_min c0 = c_min c1 /\ suite0 = suite1 /\
+   0 <= s_now st1 - s_now st0 /\ (s_now st1 - s_now st0) / 1000 <= k_TLS_1_3_TICKET_LIFETIME).
+Proof. exact tls13_ticket_lifetime. Qed.
+Print Assumptions c14_tls13_ticket_lifetime_partial.
+
+(* NOT covered: the cryptographic part of TLS 1.3 PSK tickets (tls13Resume.c sealing, tls13Psk.c lookup, binders) is
+   not modelled - the live check exercises round trip, byte edits, wrong resumption secret, expiry and key rotation.
+   The match of a TLS <= 1.2 ticket's EMS flag with the new handshake happens after extension parsing, outside
+   matrixUnlockSessionTicket: observed by the live check only. *)
